@@ -9,6 +9,10 @@ import Mathlib.LinearAlgebra.Matrix.NonsingularInverse
 import Mathlib.Analysis.SpecialFunctions.Pow.Real
 import Mathlib.Analysis.Matrix.Spectrum
 import Mathlib.Analysis.Matrix.PosDef
+import Mathlib.MeasureTheory.Integral.Pi
+import Mathlib.Analysis.SpecialFunctions.ImproperIntegrals
+import Mathlib.MeasureTheory.Measure.Lebesgue.Integral
+import Mathlib.MeasureTheory.Group.Integral
 
 /-!
 # C04 — log-densities are the documented normalised densities in every parameterisation
@@ -187,6 +191,121 @@ theorem mhn_exp_logpdf_kernel (x a b c : ℝ) (hx : 0 < x) :
   congr 1
   ring
 
+/-! ## 2b. dimension n: product-measure lift (Normal, Cauchy, Laplace) -/
+
+/-- generic lift: if every component density integrates to one, so does `exp` of the i.i.d. log-density -/
+theorem iid_integral_eq_one (n : ℕ) (comp : RExpr) (a b : Fin n → ℝ) (f : Fin n → ℝ → ℝ)
+    (hcomp : ∀ (x : Fin n → ℝ) (i : Fin n),
+      Real.exp (eval (env 0 (List.ofFn x) [List.ofFn a, List.ofFn b] i) comp) = f i (x i))
+    (hint : ∀ i, ∫ t, f i t = 1) :
+    ∫ x : Fin n → ℝ, Real.exp (iid eval 0 comp (List.ofFn x) [List.ofFn a, List.ofFn b]) = 1 := by
+  have hpt : ∀ x : Fin n → ℝ,
+      Real.exp (iid eval 0 comp (List.ofFn x) [List.ofFn a, List.ofFn b]) = ∏ i : Fin n, f i (x i) := by
+    intro x
+    rw [iid_ofFn_eq_sum, Real.exp_sum]
+    exact Finset.prod_congr rfl fun i _ => hcomp x i
+  simp_rw [hpt]
+  rw [integral_fintype_prod_volume_eq_prod f]
+  exact Finset.prod_eq_one fun i _ => hint i
+
+theorem cauchy_exp_logpdf' (ρ : ℕ → ℝ) (hs : 0 < ρ 2) :
+    Real.exp (eval ρ (cauchyLogpdf (var 0) (var 1) (var 2))) = cauchyPDFReal (ρ 1) (Real.toNNReal (ρ 2)) (ρ 0) := by
+  simp only [cauchyLogpdf, cauchyPDFReal_def', eval_neg, eval_log, eval_mul, eval_pi, eval_add, eval_ofNat, eval_div,
+    eval_pow, eval_sub, eval_var, NNReal.coe_inv, Real.coe_toNNReal _ hs.le, Nat.cast_one]
+  rw [Real.exp_neg, Real.exp_log (by positivity)]
+  rw [mul_inv, mul_inv]
+
+theorem cauchy_iid_integral_eq_one (n : ℕ) (l s : Fin n → ℝ) (hs : ∀ i, 0 < s i) :
+    ∫ x : Fin n → ℝ, Real.exp (iid eval 0 (cauchyLogpdf (var 0) (var 1) (var 2)) (List.ofFn x) [List.ofFn l, List.ofFn s]) = 1 := by
+  refine iid_integral_eq_one n _ l s (fun i t => cauchyPDFReal (l i) (Real.toNNReal (s i)) t) ?_ ?_
+  · intro x i
+    have h2 : env (0:ℝ) (List.ofFn x) [List.ofFn l, List.ofFn s] i 2 = s i := by simp [env, bc_ofFn]
+    rw [cauchy_exp_logpdf' _ (by rw [h2]; exact hs i)]
+    simp [env, bc_ofFn]
+  · intro i
+    refine integral_cauchyPDFReal_eq_one (l i) ?_
+    simp only [ne_eq, Real.toNNReal_eq_zero, not_le]
+    exact hs i
+
+theorem laplace_exp_logpdf' (ρ : ℕ → ℝ) (hs : 0 < ρ 2) :
+    Real.exp (eval ρ (laplaceLogpdf (var 0) (var 1) (var 2)))
+      = 1 / (2 * ρ 2) * Real.exp (-(|ρ 0 - ρ 1| / ρ 2)) := by
+  simp only [laplaceLogpdf, eval_sub, eval_log, eval_abs, eval_ofNat, eval_div, eval_var,
+    Nat.cast_ofNat, Nat.cast_one]
+  rw [Real.exp_sub, Real.exp_log (by positivity), Real.exp_neg]
+  field_simp
+
+theorem laplace_density_integral (l s : ℝ) (hs : 0 < s) :
+    ∫ x : ℝ, 1 / (2 * s) * Real.exp (-(|x - l| / s)) = 1 := by
+  have h1 : (∫ x : ℝ, 1 / (2 * s) * Real.exp (-(|x - l| / s)))
+      = ∫ y : ℝ, 1 / (2 * s) * Real.exp (-(|y| / s)) :=
+    integral_sub_right_eq_self (fun y : ℝ => 1 / (2 * s) * Real.exp (-(|y| / s))) l
+  rw [h1, integral_comp_abs (f := fun t => 1 / (2 * s) * Real.exp (-(t / s)))]
+  rw [integral_const_mul]
+  have h2 : ∀ t : ℝ, Real.exp (-(t / s)) = Real.exp ((-1 / s) * t) := by
+    intro t; congr 1; field_simp
+  simp_rw [h2]
+  rw [integral_exp_mul_Ioi (by rw [neg_div]; exact neg_neg_of_pos (by positivity)) 0]
+  simp
+  field_simp
+
+/-- `Laplace.logpdf` as the code writes it (`dim*log(0.5/scale) - ‖x-location‖₁/scale`) is the i.i.d. sum
+    of the component log-densities whenever `dim` is the length of the variable -/
+theorem laplace_code_eq_iid (dim : ℕ) (x l : List ℝ) (s : ℝ) (hdim : dim = bcLen x [l]) (h1 : 1 ≤ bcLen x [l]) :
+    laplaceCode eval 0 dim x l [s] = iid eval 0 (laplaceLogpdf (var 0) (var 1) (var 2)) x [l, [s]] := by
+  have hL : bcLen x [l, [s]] = bcLen x [l] := by
+    simp only [bcLen, List.map_cons, List.map_nil, List.foldl_cons, List.foldl_nil, List.length_singleton] at h1 ⊢
+    omega
+  unfold laplaceCode iid
+  rw [sumTo_eq_sum, sumTo_eq_sum, sumTo_eq_sum, hL, ← hdim, ← Finset.sum_sub_distrib]
+  refine Finset.sum_congr rfl fun j _ => ?_
+  simp [laplaceLogpdf, slConst, env, bc]
+
+theorem laplace_iid_integral_eq_one (n : ℕ) (l s : Fin n → ℝ) (hs : ∀ i, 0 < s i) :
+    ∫ x : Fin n → ℝ, Real.exp (iid eval 0 (laplaceLogpdf (var 0) (var 1) (var 2)) (List.ofFn x) [List.ofFn l, List.ofFn s]) = 1 := by
+  refine iid_integral_eq_one n _ l s (fun i t => 1 / (2 * s i) * Real.exp (-(|t - l i| / s i))) ?_ ?_
+  · intro x i
+    have h2 : env (0:ℝ) (List.ofFn x) [List.ofFn l, List.ofFn s] i 2 = s i := by simp [env, bc_ofFn]
+    rw [laplace_exp_logpdf' _ (by rw [h2]; exact hs i)]
+    simp [env, bc_ofFn]
+  · intro i
+    exact laplace_density_integral (l i) (s i) (hs i)
+
+theorem normal_exp_logpdf' (ρ : ℕ → ℝ) (hs : 0 < ρ 2) :
+    Real.exp (eval ρ (normalLogpdf (var 0) (var 1) (var 2)))
+      = gaussianPDFReal (ρ 1) (Real.toNNReal (ρ 2 ^ 2)) (ρ 0) := by
+  simp only [normalLogpdf, gaussianPDFReal, eval_sub, eval_neg, eval_log, eval_mul, eval_sqrt, eval_pi,
+    eval_ofNat, eval_div, eval_pow, eval_var, Real.coe_toNNReal _ (sq_nonneg (ρ 2)),
+    Nat.cast_ofNat, Nat.cast_one]
+  have h2pi : (0:ℝ) < 2 * Real.pi := by positivity
+  have hsq : Real.sqrt (2 * Real.pi * ρ 2 ^ 2) = ρ 2 * Real.sqrt (2 * Real.pi) := by
+    rw [Real.sqrt_mul h2pi.le, Real.sqrt_sq hs.le]; ring
+  rw [hsq, Real.exp_sub, Real.exp_neg, Real.exp_log (by positivity), div_eq_mul_inv, ← Real.exp_neg]
+  congr 2
+  field_simp
+
+/-- **Normal, dimension n: the density `exp(logpdf)` integrates to one over ℝⁿ** (per-component means and
+    standard deviations; product-measure lift of the one-dimensional statement). -/
+theorem normal_iid_integral_eq_one (n : ℕ) (m s : Fin n → ℝ) (hs : ∀ i, 0 < s i) :
+    ∫ x : Fin n → ℝ, Real.exp (iid eval 0 (normalLogpdf (var 0) (var 1) (var 2)) (List.ofFn x) [List.ofFn m, List.ofFn s]) = 1 := by
+  have hpt : ∀ x : Fin n → ℝ,
+      Real.exp (iid eval 0 (normalLogpdf (var 0) (var 1) (var 2)) (List.ofFn x) [List.ofFn m, List.ofFn s])
+        = ∏ i : Fin n, gaussianPDFReal (m i) (Real.toNNReal (s i ^ 2)) (x i) := by
+    intro x
+    rw [iid_ofFn_eq_sum, Real.exp_sum]
+    refine Finset.prod_congr rfl fun i _ => ?_
+    have h2 : env (0:ℝ) (List.ofFn x) [List.ofFn m, List.ofFn s] i 2 = s i := by
+      simp [env, bc_ofFn]
+    rw [normal_exp_logpdf' _ (by rw [h2]; exact hs i)]
+    simp [env, bc_ofFn]
+  simp_rw [hpt]
+  rw [integral_fintype_prod_volume_eq_prod (fun i t => gaussianPDFReal (m i) (Real.toNNReal (s i ^ 2)) t)]
+  refine Finset.prod_eq_one fun i _ => ?_
+  refine integral_gaussianPDFReal_eq_one (m i) ?_
+  simp only [ne_eq, Real.toNNReal_eq_zero, not_le]
+  have := hs i
+  positivity
+
 /-! ## 3./4. code-faithful negative results, cdf -/
 
 theorem sl_doc_exp (x l s β : ℝ) (hs : 0 < s) :
@@ -234,7 +353,9 @@ theorem uniformVolCode_array_eq_doc (dim : ℕ) (lo hi : List ℚ) (h : max lo.l
 
 theorem uniform_len1_array_counterexample :
     uniformVolCode 2 false [0] [2] = 2 ∧ uniformVolDoc 2 [0] [2] = 4 := by
-  constructor <;> simp [uniformVolCode, uniformVolDoc, bc, List.range_succ] <;> norm_num
+  constructor
+  · simp [uniformVolCode, bc, List.range_succ]
+  · simp [uniformVolDoc, bc, List.range_succ]; norm_num
 
 theorem uniformVolDoc_eq_prod (dim : ℕ) (lo hi : List ℚ) :
     uniformVolDoc dim lo hi = ∏ j ∈ range dim, (bc 0 hi j - bc 0 lo j) := by
@@ -336,6 +457,7 @@ theorem gauss_forms_agree_quad (C P P' : Matrix n n R) (h : C * P = 1) (h' : C *
 theorem det_gram_comm (Rm : Matrix n n R) : (Rm * Rmᵀ).det = (Rmᵀ * Rm).det := by
   rw [det_mul, det_mul, mul_comm]
 
+omit [DecidableEq n] in
 theorem sqrtcov_sym_partial (Rm : Matrix n n R) (h : Rmᵀ = Rm) : Rm * Rmᵀ = Rmᵀ * Rm := by
   rw [h]
 
@@ -482,5 +604,39 @@ theorem gauss_logpdf_sub_logupdf (ρ : ℕ → ℝ) (r d q : RExpr) :
   simp [gaussLogpdf, gaussLogupdf]
 
 example : eval (fun _ => 0) (gaussLogupdf (const 4)) = -2 := by simp [gaussLogupdf]; norm_num
+
+/-! ## Non-vacuity: the hypotheses of the theorems above are met by concrete, non-trivial instances -/
+
+example : ∫ x, Real.exp (eval (env4 x 1 2 0) (normalLogpdf (var 0) (var 1) (var 2))) = 1 :=
+  normal_integral_eq_one 1 2 (by norm_num)
+example : ∫ x, Real.exp (eval (env4 x (-1) (1 / 2) 0) (cauchyLogpdf (var 0) (var 1) (var 2))) = 1 :=
+  cauchy_integral_eq_one (-1) (1 / 2) (by norm_num)
+example : ∫ x, Real.exp (eval (env4 x 3 (1 / 4) 0) (laplaceLogpdf (var 0) (var 1) (var 2))) = 1 := by
+  simp_rw [laplace_exp_logpdf _ 3 (1 / 4) (by norm_num)]
+  exact laplace_density_integral 3 (1 / 4) (by norm_num)
+example : ∫⁻ x, ENNReal.ofReal (gammaDensity 2 3 x) = 1 := gamma_lintegral_eq_one 2 3 (by norm_num) (by norm_num)
+example : ∫⁻ x, ENNReal.ofReal (betaDensity (1 / 2) 3 x) = 1 := beta_lintegral_eq_one (1 / 2) 3 (by norm_num) (by norm_num)
+example := invgamma_exp_logpdf 2 (3 / 2) (1 / 2) 3 (by norm_num) (by norm_num) (by norm_num)
+example := mhn_exp_logpdf_kernel (3 / 2) 2 3 4 (by norm_num)
+example : ∫ x : Fin 3 → ℝ, Real.exp (iid eval 0 (normalLogpdf (var 0) (var 1) (var 2)) (List.ofFn x)
+    [List.ofFn (fun i : Fin 3 => (i : ℝ)), List.ofFn (fun i : Fin 3 => (i : ℝ) + 1)]) = 1 :=
+  normal_iid_integral_eq_one 3 _ _ (fun i => by positivity)
+example : ∫ x : Fin 2 → ℝ, Real.exp (iid eval 0 (cauchyLogpdf (var 0) (var 1) (var 2)) (List.ofFn x)
+    [List.ofFn (fun _ : Fin 2 => (0 : ℝ)), List.ofFn (fun _ : Fin 2 => (2 : ℝ))]) = 1 :=
+  cauchy_iid_integral_eq_one 2 _ _ (fun _ => by norm_num)
+example : slCode eval 0 [1, 2] [0] [1, 2] [1 / 2] = slDoc eval 0 [1, 2] [0] [1, 2] [1 / 2] :=
+  sl_code_eq_doc_partial _ _ _ _ (by simp [bcLen])
+example : laplaceCode eval 0 2 [1, 2] [0] [3] = iid eval 0 (laplaceLogpdf (var 0) (var 1) (var 2)) [1, 2] [[0], [3]] :=
+  laplace_code_eq_iid 2 _ _ 3 (by simp [bcLen]) (by simp [bcLen])
+example : uniformVolCode 3 true [0] [2] = 8 := by
+  rw [uniformVolCode_scalar_eq_doc]; simp [uniformVolDoc, bc, List.range_succ]; norm_num
+example : ∫ _x in (0:ℝ)..2, Real.exp (eval (fun _ => 2 - 0) (uniformLogpdf (var 0))) = 1 :=
+  uniform_integral_eq_one 0 2 (by norm_num)
+example : (1 : Matrix (Fin 2) (Fin 2) ℝ).PosDef := Matrix.PosDef.one
+example := gauss_logpdf_eq_mvn (fun _ => 0) 2 (7 / 4) 4 (by norm_num)
+example := gmrf_logpdf_eq_gauss (fun _ => 0) 3 2 4 (11 / 2) (by norm_num) (by norm_num)
+example : (!![2, 0; 0, 4] : Matrix (Fin 2) (Fin 2) ℚ) * !![1 / 2, 0; 0, 1 / 4] = 1 := by
+  ext i j; fin_cases i <;> fin_cases j <;> simp [Matrix.mul_apply, Fin.sum_univ_two]
+example := lognormal_exp_logpdf_1d (fun _ => 0) 1 0 2 (by norm_num) (by norm_num) 2 0 (by norm_num) (by simp)
 
 end CuqiVerif.C04
